@@ -16,6 +16,7 @@ import NR.WaitEst
 import NR.Seq
 import NR.StopGen
 import NR.Links
+import NR.RangeCheck
 namespace NR.Driver
 open NR
 
@@ -38,6 +39,7 @@ structure CollSt where
 deriving Inhabited
 
 structure State where
+  rc   : List RangeCheck.Iv := []
   coll : CollSt := {}
   td   : TdState := {}
   sb   : SpecDriver.Builder := {}
@@ -333,8 +335,35 @@ def stepLinks (ws : List String) : String :=
     | _, _, _, _, _ => "bad-op"
   | _ => "bad-op"
 
+/-- `rc new <start:end,…>`: does `SetWindows` accept the list (NR.RangeCheck.accepts); `rc q <t>`: the
+earliest start for arrival `t` read from the minute-slot table (`panic` = the table indexes out of range). -/
+def stepRc (cur : List RangeCheck.Iv) (ws : List String) : List RangeCheck.Iv × String :=
+  match ws with
+  | ["new", l] =>
+    let pair (q : String) : Option RangeCheck.Iv :=
+      match q.splitOn ":" with
+      | [x, y] => (match parseRat? x, parseRat? y with
+        | some x, some y => some (x, y)
+        | _, _ => none)
+      | _ => none
+    match allSome ((l.splitOn ",").map pair) with
+    | some ivs =>
+      if RangeCheck.accepts ivs then
+        -- the table is built when the windows are set: an index out of range shows here
+        let built := ivs.all (fun w => (RangeCheck.check ivs w.1).isSome && (RangeCheck.check ivs w.2).isSome)
+        (ivs, if built then "rc new ok" else "rc new panic")
+      else ([], "rc new err")
+    | none => (cur, "bad-op")
+  | ["q", t] =>
+    match parseRat? t with
+    | some t =>
+      (cur, "rc q " ++ (match RangeCheck.toEarliestStart cur t with | some v => showRat v | none => "panic"))
+    | none => (cur, "bad-op")
+  | _ => (cur, "bad-op")
+
 def step (st : State) (line : String) : State × String :=
   match words line with
+  | "rc" :: ws => let (r, o) := stepRc st.rc ws; ({ st with rc := r }, o)
   | "seq" :: ws => (st, stepSeq ws)
   | "links" :: ws => (st, stepLinks ws)
   | "sgen" :: ws => (st, stepSgen ws)
